@@ -47,8 +47,7 @@ def run(ctx):
     rc = ctx.tlc("MC_ScriptClass.tla", "MC_ScriptClass.cfg")
     scripts = [o for o in rc["emitted"] if o.get("k") == "case"]
     import random
-    if len(scripts) > ctx.pick(1500, 10**9):
-        scripts = random.Random(ctx.seed).sample(scripts, ctx.pick(1500, 10**9))
+    # all of them (about 15 k short scripts): a sample made the detection of seeded changes depend on the seed
     spath = os.path.join(ctx.tmp, "c16scripts.ndjson")
     vf.write_ndjson(spath, scripts)
     ctx.cov["tlc_generated_cases"] += len(scripts)
